@@ -358,29 +358,128 @@ func moreWildcardOnlyForStar(p *Program, r *Report) {
 // ---- R-C05-1/3 through helpers that forward a *os.File to StoreAttribute ---------------------------
 
 // fileForwarders: posix functions with a *os.File parameter that reaches StoreAttribute's file argument.
-func fileForwarders(p *Program) map[string]int {
-	out := map[string]int{}
+// fileForwarders: the functions of the posix backend that hand a *os.File of their caller to StoreAttribute: a
+// parameter, or a *os.File field of a struct parameter/receiver (a handle bundling file, bucket and key).
+type fileForward struct {
+	arg   int    // index into Common().Args (receiver included)
+	field string // "" = the argument itself
+}
+
+func fileForwarders(p *Program) map[string]fileForward {
+	out := map[string]fileForward{}
 	for _, f := range p.FuncsIn("backend/posix") {
 		if f.Parent() != nil {
 			continue
 		}
-		for i, prm := range f.Params {
-			if typeStr(prm.Type()) != "*os.File" {
+		for _, mc := range metaCallsIn(f) {
+			if mc.method != "StoreAttribute" {
 				continue
 			}
-			for _, mc := range metaCallsIn(f) {
-				if mc.method != "StoreAttribute" {
-					continue
-				}
-				for _, rt := range terminalRoots(Origins(mc.call.Common().Args[0], nil)) {
-					if rt.Kind == "param" && rt.Val == prm {
-						idx := i
-						if f.Signature.Recv() != nil {
-							idx = i - 1
+			for _, rt := range Origins(mc.call.Common().Args[0], nil) {
+				switch rt.Kind {
+				case "param":
+					for i, prm := range f.Params {
+						if rt.Val == ssa.Value(prm) && typeStr(prm.Type()) == "*os.File" {
+							out[fnName(f)] = fileForward{i, ""}
 						}
-						out[fnName(f)] = idx
+					}
+				case "field":
+					// a *os.File field read from a struct parameter
+					var base ssa.Value
+					switch x := rt.Val.(type) {
+					case *ssa.Field:
+						base = x.X
+					case *ssa.UnOp:
+						if fa, ok := x.X.(*ssa.FieldAddr); ok {
+							base = fa.X
+						}
+					case *ssa.FieldAddr:
+						base = x.X
+					}
+					if base == nil || typeStr(rt.Val.Type()) != "*os.File" && !strings.HasSuffix(typeStr(rt.Val.Type()), "os.File") {
+						continue
+					}
+					// the struct is the parameter itself (possibly spilled to a local cell), not something derived from it
+					var direct func(v ssa.Value, d int) ssa.Value
+					direct = func(v ssa.Value, d int) ssa.Value {
+						if d > 3 {
+							return nil
+						}
+						switch x := v.(type) {
+						case *ssa.Parameter:
+							return x
+						case *ssa.UnOp:
+							if x.Op == token.MUL {
+								return direct(x.X, d+1)
+							}
+						case *ssa.Alloc:
+							sts := storesTo(x)
+							if len(sts) == 1 {
+								return direct(sts[0].Val, d+1)
+							}
+						}
+						return nil
+					}
+					if bp := direct(base, 0); bp != nil {
+						for i, prm := range f.Params {
+							if bp == ssa.Value(prm) {
+								if _, isStruct := derefType(prm.Type()).Underlying().(*types.Struct); isStruct {
+									out[fnName(f)] = fileForward{i, rt.Desc}
+								}
+							}
+						}
 					}
 				}
+			}
+		}
+	}
+	return out
+}
+
+// structFieldAtCall: the values a field of a struct argument holds: from the literal it was built with, or from
+// the literal a constructor it was obtained from returns (parameters of the constructor mapped to its arguments).
+func structFieldAtCall(v ssa.Value, field string, depth int) []ssa.Value {
+	if fs, _ := litFields(v); len(fs[field]) > 0 {
+		return fs[field]
+	}
+	if depth > 2 {
+		return nil
+	}
+	var c *ssa.Call
+	switch x := v.(type) {
+	case *ssa.Call:
+		c = x
+	case *ssa.UnOp:
+		if al, ok := x.X.(*ssa.Alloc); ok {
+			var out []ssa.Value
+			for _, st := range storesTo(al) {
+				out = append(out, structFieldAtCall(st.Val, field, depth+1)...)
+			}
+			return out
+		}
+	}
+	if c == nil {
+		return nil
+	}
+	g := c.Call.StaticCallee()
+	if g == nil || len(g.Blocks) == 0 {
+		return nil
+	}
+	var out []ssa.Value
+	for _, ret := range returnsOf(g) {
+		if len(ret.Results) == 0 {
+			continue
+		}
+		for _, fv := range structFieldAtCall(ret.Results[0], field, depth+1) {
+			mapped := false
+			for i, prm := range g.Params {
+				if fv == ssa.Value(prm) && i < len(c.Call.Args) {
+					out = append(out, c.Call.Args[i])
+					mapped = true
+				}
+			}
+			if !mapped {
+				out = append(out, fv)
 			}
 		}
 	}
@@ -395,14 +494,25 @@ func moreHelperAttrWrites(p *Program, r *Report) {
 	for _, pb := range publishers(p) {
 		f := pb.f
 		for _, c := range callsIn(f) {
-			idx, ok := fw[calleeName(c)]
+			fwd, ok := fw[calleeName(c)]
 			if !ok {
 				continue
 			}
 			if _, isCall := c.(*ssa.Call); !isCall {
 				continue
 			}
-			fileArg := callArgs(c)[idx]
+			if fwd.arg >= len(c.Common().Args) {
+				continue
+			}
+			fileArg := c.Common().Args[fwd.arg]
+			if fwd.field != "" {
+				vals := structFieldAtCall(fileArg, fwd.field, 0)
+				if len(vals) != 1 {
+					r.Undecided("R-C05-1", fnName(f)+"/"+calleeName(c)+":file", p.Pos(c.Pos()), "cannot tell which file the handle passed to "+calleeName(c)+" carries")
+					continue
+				}
+				fileArg = vals[0]
+			}
 			before, after := false, false
 			for _, l := range pb.links {
 				if mayPrecede(c, l) {
@@ -1054,7 +1164,20 @@ func moreStashOnce(p *Program, r *Report) {
 					base = fa.X
 				}
 			}
-			if fld != "stash" {
+			// the stash, by role: a []byte field of the reader (its receiver) that is the source of a copy
+			if fld == "" || base == nil || typeStr(src.Type()) != "[]byte" {
+				continue
+			}
+			if len(f.Params) == 0 || f.Signature.Recv() == nil {
+				continue
+			}
+			isRecv := false
+			for _, rt := range terminalRoots(Origins(base, nil)) {
+				if rt.Kind == "param" && rt.Val == ssa.Value(f.Params[0]) {
+					isRecv = true
+				}
+			}
+			if !isRecv {
 				continue
 			}
 			n++
